@@ -1347,4 +1347,62 @@ package serf
 //@   ensures not_asked_is_error [C23]: !asked ==> err != nil
 //@ end
 
+// ---------------------------------------------------------------- snapshot I/O failures (C12)
+// Every file operation (open, write, flush, sync, close, remove, rename) returns an arbitrary result. The handles the
+// snapshotter works through are never nil, whatever fails, so no failure path ends in a nil dereference; and what has
+// to be recorded is in memory first (alive nodes, last clocks), which is what the next successful compaction writes.
+
+//@ pure func wfSnap(s *Snapshotter) bool {
+//@   return s != nil && s.buffered != nil && s.fh != nil && s.aliveNodes != nil && s.clock != nil
+//@ }
+//@ pure func snapMemory(s *Snapshotter, k string) bool { return mapHas(s.aliveNodes, k) }
+
+//@ func (s *Snapshotter) compact() (err error)
+//@   requires wf: wfSnap(s)
+//@   ensures handles_never_nil [C12]: wfSnap(s)
+//@   ensures memory_untouched [C12]: s.lastClock == old(s.lastClock) && s.lastEventClock == old(s.lastEventClock) && s.lastQueryClock == old(s.lastQueryClock) &&
+//@       same(s.aliveNodes, old(s.aliveNodes)) && forall(func(k string) bool { return snapMemory(s, k) == old(snapMemory(s, k)) && mapAt(s.aliveNodes, k) == old(mapAt(s.aliveNodes, k)) })
+//@   loop 1 invariant handles [C12]: wfSnap(s)
+//@ end
+//@ func (s *Snapshotter) appendLine(l string) (err error)
+//@   requires wf: wfSnap(s)
+//@   ensures handles_never_nil [C12]: wfSnap(s)
+//@   ensures memory_untouched [C12]: s.lastClock == old(s.lastClock) && s.lastEventClock == old(s.lastEventClock) && s.lastQueryClock == old(s.lastQueryClock) &&
+//@       same(s.aliveNodes, old(s.aliveNodes)) && forall(func(k string) bool { return snapMemory(s, k) == old(snapMemory(s, k)) && mapAt(s.aliveNodes, k) == old(mapAt(s.aliveNodes, k)) })
+//@ end
+//@ func (s *Snapshotter) tryAppend(l string)
+//@   requires wf: wfSnap(s)
+//@   ensures handles_never_nil [C12]: wfSnap(s)
+//@   ensures memory_untouched [C12]: s.lastClock == old(s.lastClock) && s.lastEventClock == old(s.lastEventClock) && s.lastQueryClock == old(s.lastQueryClock) &&
+//@       same(s.aliveNodes, old(s.aliveNodes)) && forall(func(k string) bool { return snapMemory(s, k) == old(snapMemory(s, k)) && mapAt(s.aliveNodes, k) == old(mapAt(s.aliveNodes, k)) })
+//@ end
+// the change is in memory whatever the file operations did
+//@ func (s *Snapshotter) processUserEvent(e UserEvent)
+//@   requires wf: wfSnap(s)
+//@   ensures handles_never_nil [C12]: wfSnap(s)
+//@   ensures recorded_in_memory [C12,C14]: s.lastEventClock == ite(e.LTime > old(s.lastEventClock), e.LTime, old(s.lastEventClock))
+//@ end
+//@ func (s *Snapshotter) processQuery(q *Query)
+//@   requires wf: wfSnap(s) && q != nil
+//@   ensures handles_never_nil [C12]: wfSnap(s)
+//@   ensures recorded_in_memory [C12,C14]: s.lastQueryClock == ite(q.LTime > old(s.lastQueryClock), q.LTime, old(s.lastQueryClock))
+//@ end
+//@ func (s *Snapshotter) updateClock()
+//@   requires wf: wfSnap(s)
+//@   ensures handles_never_nil [C12]: wfSnap(s)
+//@   ensures clock_only_grows [C12]: s.lastClock >= old(s.lastClock)
+//@ end
+//@ func (s *Snapshotter) processMemberEvent(e MemberEvent)
+//@   requires wf: wfSnap(s)
+//@   ensures handles_never_nil [C12]: wfSnap(s)
+//@   ensures joined_in_memory [C12]: e.Type == EventMemberJoin ==> forall(func(i int) bool { return 0 <= i && i < len(e.Members) ==> snapMemory(s, e.Members[i].Name) })
+//@   ensures departed_in_memory [C12]: e.Type == EventMemberLeave || e.Type == EventMemberFailed ==>
+//@       forall(func(i int) bool { return 0 <= i && i < len(e.Members) ==> !snapMemory(s, e.Members[i].Name) })
+//@   loop 1 vars ri=rangeindex int
+//@   loop 1 invariant joined [C12]: -1 <= ri && wfSnap(s) && same(s.aliveNodes, old(s.aliveNodes)) && forall(func(i int) bool { return 0 <= i && i <= ri ==> snapMemory(s, e.Members[i].Name) })
+//@   loop 2 vars ri=rangeindex int
+//@   loop 2 invariant departed [C12]: -1 <= ri && wfSnap(s) && same(s.aliveNodes, old(s.aliveNodes)) && forall(func(i int) bool { return 0 <= i && i <= ri ==> !snapMemory(s, e.Members[i].Name) }) &&
+//@       forall(func(k string) bool { return !old(snapMemory(s, k)) ==> !snapMemory(s, k) })
+//@ end
+
 // END-OF-CONTRACTS
